@@ -46,21 +46,30 @@ def svcNames (s : MeshSvc) (proxyDomain : String) : List String :=
     else base
   | _, _ => base
 
-/-- Longest candidate by host length, first one among equals. -/
-def longestHost : List (VirtualService × String) → Option (VirtualService × String)
+/-- The longest string of a list (any of them among equals: matching wildcard hosts of equal length
+    are equal). -/
+def longestStr : List String → Option String
   | [] => none
-  | c :: cs =>
-    match longestHost cs with
-    | none => some c
-    | some b => if b.2.length > c.2.length then some b else some c
+  | h :: hs =>
+    match longestStr hs with
+    | none => some h
+    | some b => if b.length > h.length then some b else some h
 
-/-- The VirtualService for a service hostname: exact host first, else the longest matching wildcard. -/
+/-- The oldest VirtualService (creation order) that lists host `h`. -/
+def oldestWithHost (vss : List VirtualService) (h : String) : Option VirtualService :=
+  vss.find? (fun v => v.hosts.contains h)
+
+/-- All wildcard hosts of the VirtualServices that match the service hostname. -/
+def matchingWildcards (vss : List VirtualService) (hostname : String) : List String :=
+  (vss.flatMap (·.hosts)).filter (fun h => isWildcarded h && hasSuffixStr hostname (lower (drop1 h)))
+
+/-- The VirtualService for a service hostname - most specific host wins: a VirtualService listing the
+    hostname itself (the oldest one), else the oldest VirtualService listing the longest matching
+    wildcard host. -/
 def vsFor (vss : List VirtualService) (hostname : String) : Option VirtualService :=
   match vss.find? (fun v => v.hosts.any (fun h => !isWildcarded h && lower h == hostname)) with
   | some v => some v
-  | none =>
-    (longestHost (vss.flatMap (fun v =>
-      (v.hosts.filter (fun h => isWildcarded h && hasSuffixStr hostname (lower (drop1 h)))).map (fun h => (v, h))))).map (·.1)
+  | none => (longestStr (matchingWildcards vss hostname)).bind (oldestWithHost vss)
 
 def meshSpec (re : Regex) (c : Ctx) (m : Mesh) (req : Request) : Decision :=
   let a := lower req.authority
